@@ -11,6 +11,7 @@ CONSTANTS
   Planned = TRUE
   MaxPlan = 36
   InitStores <- StoresEmpty
+  LateStart = FALSE
   LogSched = FALSE
   KeepLog = FALSE
   OpMenu <- MenuCluster
